@@ -40,7 +40,18 @@ func (s *zzStore) GetBalances(_ context.Context, q BalanceQuery) (Balances, erro
 		return s.static, nil
 	case "superset":
 		out := Balances{}
+		// what nobody asked for comes FIRST in the answer (the VM walks maps in insertion order)
+		if m, ok := s.truth["world"]; ok {
+			ab := AccountBalance{}
+			for as, v := range m {
+				ab[as] = new(big.Int).Set(v)
+			}
+			out["world"] = ab
+		}
 		for acc, m := range s.truth {
+			if acc == "world" {
+				continue
+			}
 			ab := AccountBalance{}
 			for as, v := range m {
 				ab[as] = new(big.Int).Set(v)
